@@ -132,12 +132,12 @@ def run(res, tier, seed, driver_ok):
     # ---- arm-level re-implementations (6R test arm and random 6-joint arms with explicit spatial inertias)
     tm = armh.libs()[0]
     from basic_robotics.general import fsr
-    narm = 200 if thorough else 12
+    narm = 200 if thorough else 16
     for k in range(narm):
         r2 = random.Random(rnd.randrange(1 << 30))
         try:
             with contextlib.redirect_stdout(io.StringIO()):
-                nrand = 6 if k % 4 == 1 else r2.randint(1, 7)
+                nrand = 6 if k % 8 == 1 else 7 if k % 8 == 5 else 1 if k % 8 == 7 else r2.randint(1, 7)      # both ends of the 1..7 range in every run
                 S, Mh, homes, axes = armh.six_r() if k % 2 == 0 else armh.random_chain(r2, nrand)
                 arm, spec = armh.build(r2, 'six_r' if k % 2 == 0 else 'chain', None) if k % 2 == 0 else (None, None)
                 if arm is None:
